@@ -2,13 +2,14 @@
 # usage: extract.sh <repo-dir> <out-facts-dir> <target-dir> [extra RUSTFLAGS]
 # Runs the fact extractor over the workspace members of <repo-dir>.
 set -e
-REPO="$1"; OUT="$2"; TGT="$3"; EXTRA="$4"
+REPO="$1"; OUT="$2"; TGT="$3"; EXTRA="$4"; PKG="${5:-memcrs}"
 HERE="$(cd "$(dirname "$0")" && pwd)"
 DRV="$HERE/driver/target/release/memc-facts"
 [ -x "$DRV" ] || { echo "driver not built: run ./setup.sh" >&2; exit 2; }
 mkdir -p "$OUT" "$TGT"
 # cargo's freshness cache would skip the wrapper: forget the members' fingerprints
-rm -rf "$TGT"/debug/.fingerprint/memcrs-* "$TGT"/debug/incremental 2>/dev/null || true
+PKGU=$(echo "$PKG" | tr - _)
+rm -rf "$TGT"/debug/.fingerprint/"$PKG"-* "$TGT"/debug/.fingerprint/"$PKGU"-* "$TGT"/debug/incremental 2>/dev/null || true
 NONCE="$(date +%s%N)-$$"
 echo "$NONCE" > "$OUT/nonce"
 rm -f "$OUT"/*.json
@@ -18,4 +19,4 @@ MEMC_FACTS_DIR="$OUT" MEMC_FACTS_NONCE="$NONCE" \
 CARGO_NET_OFFLINE=true \
 RUSTFLAGS="-Zmir-opt-level=0 -Awarnings $EXTRA" \
 RUSTC_WORKSPACE_WRAPPER="$DRV" CARGO_TARGET_DIR="$TGT" \
-cargo +nightly check --offline --workspace --bins --lib >"$OUT/cargo.log" 2>&1 || { cat "$OUT/cargo.log" | tail -40 >&2; exit 3; }
+cargo +nightly check --offline --bins --lib >"$OUT/cargo.log" 2>&1 || { cat "$OUT/cargo.log" | tail -40 >&2; exit 3; }
